@@ -39,6 +39,13 @@ namespace detail
 		GLM_FUNC_QUALIFIER vec<3, T, Q> operator ()()  const { return vec<3, T, Q>(this->elem(E0), this->elem(E1), this->elem(E2)); }
 	};
 
+	// 3-component swizzles of vec2 are declared with the sentinel E3 = -1 (GLM_SWIZZLE2_3_MEMBERS)
+	template<typename T, qualifier Q, int E0, int E1, int E2>
+	struct _swizzle_base1<3, T, Q, E0,E1,E2,-1, false> : public _swizzle_base0<T, 3>
+	{
+		GLM_FUNC_QUALIFIER vec<3, T, Q> operator ()()  const { return vec<3, T, Q>(this->elem(E0), this->elem(E1), this->elem(E2)); }
+	};
+
 	template<typename T, qualifier Q, int E0, int E1, int E2, int E3>
 	struct _swizzle_base1<4, T, Q, E0,E1,E2,E3, false> : public _swizzle_base0<T, 4>
 	{
